@@ -77,7 +77,7 @@ func TestC01(t *testing.T) {
 	s := hx.Start(t, "C01")
 	defer s.Finish()
 	s.Guard(func() { Cfg() })
-	c01Part.Run(s, hx.PerShard(hx.Pick(480, 8000)))
+	c01Part.Run(s, hx.PerShard(hx.Pick(1600, 16000)))
 }
 
 // ------------------------------------------------------------------ C03 determinism / spec conformance
@@ -315,6 +315,6 @@ func TestC03(t *testing.T) {
 			c03IPA.EvalCase(s, c03IPACase{Poly: polySpec{Kind: "dense", Seed: uint64(1000*hx.Seed() + hx.Shard())}, Point: pt, Rep: hx.Shard() % 4, Label: "b"})
 		}
 	}
-	c03Multi.Run(s, hx.PerShard(hx.Pick(200, 4000)))
-	c03IPA.Run(s, hx.PerShard(hx.Pick(64, 1200)))
+	c03Multi.Run(s, hx.PerShard(hx.Pick(480, 6400)))
+	c03IPA.Run(s, hx.PerShard(hx.Pick(160, 2400)))
 }
